@@ -65,6 +65,9 @@ type SenderScript struct {
 	BeforeGoodbye func()
 	// OnRequest is called when a request arrives, before the reply is built.
 	OnRequest func(req Request)
+	// Unsolicited: file data pushed for these (sorted) indices right after the
+	// list, without waiting for any request (a hostile sender may do that).
+	Unsolicited []int32
 }
 
 type SenderLog struct {
@@ -96,6 +99,17 @@ func RunSender(r *rp.R, w io.Writer, s *SenderScript) (*SenderLog, error) {
 	}
 	if _, err := w.Write(lw.Bytes()); err != nil {
 		return log, fmt.Errorf("writing list: %w", err)
+	}
+	for _, idx := range s.Unsolicited {
+		rep := WholeFile(idx, s.Data[idx], s.Seed)
+		var ww rp.W
+		ww.Int(rep.Idx)
+		rep.Head.Write(&ww)
+		rp.WriteTokens(&ww, rep.Toks)
+		ww.Buf(rep.Trailer[:])
+		if _, err := w.Write(ww.Bytes()); err != nil {
+			return log, err
+		}
 	}
 	for {
 		idx := r.Int()
